@@ -27,6 +27,9 @@ CONSTANTS
   EnqChecksAlive = TRUE
   WaitSwallowsBadResult = TRUE
   AliveAsksServer = TRUE
+  IterExact = TRUE
+  OwnRunScn = FALSE
+  RestartKeepsRun = TRUE
 INVARIANT TypeOK
 CHECK_DEADLOCK FALSE
 INVARIANT PathDump
